@@ -20,7 +20,7 @@ fn spec(t: Tier) -> Spec {
     Spec {
         id: "C08",
         level: "fault_enumeration",
-        rule: format!("(i) every ordered forest of files and directories with <= {} nodes as r/ x expression forms {:?} x -exec/-execdir x starting points r, ./r, ., absolute (and / with -maxdepth 0): the recorder child logs argv and cwd of every invocation; the concatenation of the appended paths over all invocations must be the reference visit order of the entries on which the action is reached, each exactly once, after the fixed arguments; with -execdir each invocation holds entries of one directory only, each as ./basename, with that directory as cwd; a following labelled -printf fires for every reached entry (action true); every pending batch has run at exit, also after -quit; exit 0. (ii) forced batching through the find binary: directories of {} files with 1-, 100- and 250-byte names under RLIMIT_STACK 256 KiB / 8 MiB / unlimited (several invocations): no invocation is refused by the kernel, the paths arrive once each in order (verified by count + rolling hash per invocation, and with full argv+cwd for the -execdir case), >= 2 invocations observed. (iii) faults: every subset of the invocations (up to {} -execdir invocations, one per directory visit) exiting 1, and a command that cannot be started: all invocations still run, exit status != 0 iff some invocation failed. evaluation = one invocation (i, ii) or one fault placement (iii) checked; several starting points with a -quit reached before the last one (three orders, succeeding and failing command): exactly the paths up to the -quit are delivered; -execdir ./tool {{}} + on five directories of which only the 1st, 3rd and 5th hold ./tool: these three get their invocation (./NAME, right directory), every file is true, status non-zero; non-trivial = run with more than one invocation or a fault", t.pick(4, 5), FORMS, t.pick("400 and 3000", "400, 3000 and 40000"), t.pick(5, 7)),
+        rule: format!("(i) every ordered forest of files and directories with <= {} nodes as r/ x expression forms {:?} x -exec/-execdir x starting points r, ./r, ., absolute (and / with -maxdepth 0): the recorder child logs argv and cwd of every invocation; the concatenation of the appended paths over all invocations must be the reference visit order of the entries on which the action is reached, each exactly once, after the fixed arguments; with -execdir each invocation holds entries of one directory only, each as ./basename, with that directory as cwd; a following labelled -printf fires for every reached entry (action true); every pending batch has run at exit, also after -quit; exit 0. (ii) forced batching through the find binary: directories of {} files with 1-, 100- and 250-byte names under RLIMIT_STACK 256 KiB / 8 MiB / unlimited (several invocations): no invocation is refused by the kernel, the paths arrive once each in order (verified by count + rolling hash per invocation, and with full argv+cwd for the -execdir case), >= 2 invocations observed. (iii) faults: every subset of the invocations (up to {} -execdir invocations, one per directory visit) exiting 1, and a command that cannot be started: all invocations still run, exit status != 0 iff some invocation failed. evaluation = one invocation (i, ii) or one fault placement (iii) checked; low-descriptor slice: 150 directories (one file each, all hard links to one inode, plus a link to it) walked by the binary under RLIMIT_NOFILE 64: -exec/-execdir ... {{}} + deliver every file from the right directory; find's own output unwritable (/dev/full) and pending (-printf without newline, -print0, -print) when a batch runs, with and without -quit: every pending invocation still runs with every path; several starting points with a -quit reached before the last one (three orders, succeeding and failing command): exactly the paths up to the -quit are delivered; -execdir ./tool {{}} + on five directories of which only the 1st, 3rd and 5th hold ./tool: these three get their invocation (./NAME, right directory), every file is true, status non-zero; non-trivial = run with more than one invocation or a fault", t.pick(4, 5), FORMS, t.pick("400 and 3000", "400, 3000 and 40000"), t.pick(5, 7)),
         bound: json!({"max_nodes": t.pick(4, 5), "forms": FORMS, "roots": ["r","./r",".","absolute","/ -maxdepth 0"], "stack_limits": ["256KiB","8MiB","unlimited"]}),
         assumptions: vec!["-sorted pins the visit order; tmpfs; the recorder is a real child process".into(), "for the starting point / only 'ran exactly once with one path, exit 0' is judged".into()],
         shards: 0,
